@@ -75,6 +75,7 @@ fn main() {
         "rx" => vharness::rx::run(seed, n, thorough, &corpus, &dir),
         "life" => vharness::life::run(seed, n, thorough, &corpus, &dir),
         "lifem" => vharness::life::run_model(seed, n, thorough, &corpus, &dir),
+        "lifel" => vharness::life::run_link_model(seed, n, thorough, &corpus, &dir),
         "lifeq" => vharness::life::run_flush(&dir),
         "c05" => vharness::c05::run(seed, n, thorough, &corpus, &dir),
         "e2e" => vharness::e2e::run(seed, n, thorough, &corpus, &dir),
